@@ -101,3 +101,15 @@ Lemma encode_string_accepts s : clean_utf8 s = true -> exists o, encode_string s
 Proof.
   unfold clean_utf8, encode_string. intro H. destruct (clean_enc _ _ H) as [o Ho]. rewrite Ho. eexists; reflexivity.
 Qed.
+
+(* ---- integers are printed plain: optional minus, digits, no leading zero, never "-0" ---- *)
+Lemma format_int_shape z : exists sg d r,
+  format_int z = sg ++ d :: r /\ ((sg = [] /\ 0 <= z) \/ (sg = [c_minus] /\ z < 0)) /\
+  is_digit d = true /\ all_digits r = true /\ (bZ d = 48 -> r = [] /\ z = 0).
+Proof.
+  unfold format_int. destruct (z <? 0) eqn:E.
+  - apply Z.ltb_lt in E. destruct (digits_spec (- z)) as [d [r [E1 [E2 [E3 [E4 E5]]]]]]; [lia|].
+    exists [c_minus], d, r. rewrite E1. repeat split; auto; destruct (E5 H); auto; lia.
+  - apply Z.ltb_ge in E. destruct (digits_spec z E) as [d [r [E1 [E2 [E3 [E4 E5]]]]]].
+    exists [], d, r. rewrite E1. repeat split; auto; destruct (E5 H); auto.
+Qed.
